@@ -9,7 +9,7 @@ ID = "C05"
 TITLE = "pruning = greatest/least fixed point; every finder returns a valid proof tree; smallest is minimal"
 COQ_PROPS = "Props/C05.v"
 COQ_RUN = ("Tree.Run", "run_c05")
-GEN_TARGETS = []
+GEN_TARGETS = ["prune_rule_test", "iterative_prune_rule_test", "iterative_finder_rule_test"]   # Tree/GenBridge.v
 N = {"quick": 20000, "thorough": 400000}
 RULE = (
     "random integer rule dictionaries (3-10 labels with gaps, 1-4 rules per label, arity 0-3, repeated "
@@ -853,3 +853,35 @@ def shrink(case):
                 yield dict(case, d=dl[:i] + [[k, rs[:j] + [r[:c] + r[c + 1:]] + rs[j + 1:]]] + dl[i + 1:])
     if case.get("iters"):
         yield dict(case, iters=0)
+
+
+# source texts outside the translator's subset / with a changed shape: each must be REJECTED (fail closed)
+_BAD_SNIPPETS = [
+    ("prune_rule_test", "def prune(rdict):\n    changed = True\n    while changed:\n        changed = False\n"
+     "        for k, rule_set in list(rdict.items()):\n            for rule in list(rule_set):\n"
+     "                if any(x not in rdict for x in rule) and len(rule) > 1:\n                    rule_set.discard(rule)\n",
+     "the removal statement the test is located by is gone"),
+    ("prune_rule_test", "def prune(rdict):\n    for k, rule_set in list(rdict.items()):\n        for rule in list(rule_set):\n"
+     "            if any(x not in rdict for x in rule):\n                rule_set.remove(rule)\n", "the enclosing while loop is gone"),
+    ("prune_rule_test", "def prune(rdict):\n    changed = True\n    while changed:\n        changed = False\n"
+     "        for k, rule_set in list(rdict.items()):\n            for rule in list(rule_set):\n"
+     "                if any(rdict.get(x) is None for x in rule):\n                    rule_set.remove(rule)\n",
+     "unsupported method call"),
+    ("iterative_prune_rule_test", "def iterative_prune(rules_dict, root=None):\n    while True:\n        changed = False\n"
+     "        for k, rule_set in list(rdict.items()):\n            for rule in list(rule_set):\n"
+     "                if all(x in verified_labels or x == root for x in rule):\n                    changed = True\n",
+     "reads a name the target does not bind"),
+    ("iterative_prune_rule_test", "def iterative_prune(rules_dict):\n    return rules_dict\n", "changed signature"),
+]
+
+
+def extra_checks(ctx):
+    from harness import gen_selftest
+
+    return [gen_selftest.rejects(_BAD_SNIPPETS)] + gen_selftest.checks(GEN_TARGETS, ctx.seed, ID)
+
+
+# translator tie (DESIGN.md 10.9): what the regenerated definitions add to the level
+LEVEL_NOTE += (
+    ' The per-rule tests of prune, iterative_prune and iterative_proof_tree_finder are RE-TRANSLATED from tree_searcher.py on every run and the model is proved to branch on exactly those expressions (C05_prune_test_is_source, C05_iterative_test_is_source, C05_finder_test_is_source; Tree/GenBridge.v); each regenerated definition is evaluated against the source expression on random arguments every run (harness/gen_selftest.py). The loops around the tests are tied by the correspondence only.'
+)
